@@ -212,6 +212,18 @@ def gen_cases(tier, seed, shard, nshards):
                 'mix': sorted(mix), 'pipelining': True, 'http_timeout': 0.05, 'seed': seed * 1000003 + 700000 + j}
         if j % nshards == shard:
             yield case
+    # ---- MAIL / RCPT / end-of-data (per recipient for LMTP) answered with 1xx / 3xx / out-of-range codes on reused
+    # connections with a backlog (own PRNG stream)
+    ro = random.Random('c19o-%d' % seed)
+    for j in range(72 if tier == 'quick' else 1100):
+        pool_size = ro.choice([1, 1, 2])
+        mix = set(k for k in ('txn', 'slow', 'idle421') if ro.random() < 0.25) | {'oddcode'}
+        case = {'stratum': 'oddcode', 'arrival': ro.choice(['bursty', 'bursty', 'trickle']),
+                'mode': ro.choice(['smtp', 'lmtp']), 'pool_size': pool_size, 'idle': 0.03,
+                'ncallers': ro.randint(4, 10), 'mix': sorted(mix), 'pipelining': ro.random() < 0.7,
+                'seed': seed * 1000003 + 800000 + j}
+        if j % nshards == shard:
+            yield case
     # ---- the BlockingDeque itself: every public mutator, blocking poppers
     for j in range(48 if tier == 'quick' else 800):
         nops = rx.randint(10, 60)
@@ -357,7 +369,12 @@ def judge(lab, out, R):
             # ---- reply-stream alignment: the reply stored for command X must be the one the next hop sent for X
             st = STAGE_STAMP.search(text)
             want = STAGE_OF_CMD.get(reply.command)
-            if st and want:
+            # a code outside 1xx-5xx is a malformed reply for slimta: the client-made 421 only *quotes* the next hop's
+            # line (tag and stage stamp included) and the connection is dropped
+            quoted = 'Bad SMTP reply from server' in text
+            if quoted:
+                R.count('client-made-reply-quoting-malformed-next-hop-reply')
+            if st and want and not quoted:
                 R.hit('reply-alignment-checked')
                 if st.group(1) != want:
                     viol('reply-stream-shifted/%s' % mode,
@@ -368,7 +385,7 @@ def judge(lab, out, R):
             # ---- reported failed although the next hop accepted that very transaction
             if is_err and lab.ds is not None:
                 failed_rcpts = set(c.rcpts) if rcpt is None else {rcpt}
-                server_made = '[c' in text or STAGE_STAMP.search(text) is not None
+                server_made = ('[c' in text or STAGE_STAMP.search(text) is not None) and not quoted
                 for cn_, tn_, okset in accepted_in.get(c.marker, ()):
                     hit = failed_rcpts & okset
                     if not hit:
